@@ -28,6 +28,7 @@ Section C18.
   Variable enc : A -> D.
   Variable dec : D -> res A.
   Variable pick_min : forall X : Type, (X -> X -> bool) -> list X -> option (X * list X).
+  Variable eof : bool.   (* a failing read raises EOFError (truncated spill file) instead of OSError *)
 
   (* every workload (capacity, policy, any history of add / iterate-k-then-
      abandon / close, stopping at the first exception or not), every fault
@@ -36,20 +37,20 @@ Section C18.
      no spill file, no descriptor, no gzip handle is left *)
   Theorem C18_no_leak_partial :
     forall (c : nat) (al stop : bool) (ops : list (op A)) (f : option (nat * bool)) obs cl w',
-      w_workload A K D keyf lt enc dec pick_min c al stop ops f = (obs, cl, w') ->
+      w_workload A K D keyf lt enc dec pick_min eof c al stop ops f = (obs, cl, w') ->
       clean D w' /\ (length cl <= 3)%nat /\ last cl (Some AssertionError) = None.
-  Proof. exact (no_leak A K D keyf lt enc dec pick_min). Qed.
+  Proof. exact (no_leak A K D keyf lt enc dec pick_min eof). Qed.
 
   (* at every point between two operations of any history, faulted or not:
      the files on disk are registered for cleanup, the open descriptors are
      registered for cleanup, and no gzip handle is open *)
   Theorem C18_nothing_unregistered_between_operations :
     forall (stop : bool) (ops : list (op A)) (c : nat) (al : bool) (f : option (nat * bool)) obs s' w',
-      w_run A K D keyf lt enc dec pick_min stop (wnew K D c al) ops (world0 D f) = (obs, s', w') ->
+      w_run A K D keyf lt enc dec pick_min eof stop (wnew K D c al) ops (world0 D f) = (obs, s', w') ->
       WI K D s' w'.
   Proof.
     intros stop ops c al f obs s' w' H.
-    exact (run_WI A K D keyf lt enc dec pick_min stop ops _ _ obs s' w' (WI_new K D c al f) H).
+    exact (run_WI A K D keyf lt enc dec pick_min eof stop ops _ _ obs s' w' (WI_new K D c al f) H).
   Qed.
 
   (* one call of close(): every registered descriptor is released whatever
@@ -77,7 +78,7 @@ Definition zdec (x : Z * Z) : res (Z * Z) := Ok x.
 Definition demo_ops : list (op (Z * Z)) :=
   [OpAdd _ (3, 0); OpAdd _ (1, 1); OpAdd _ (2, 2); OpAdd _ (5, 3); OpAdd _ (4, 4); OpIter _ 7].
 Definition demo (f : option (nat * bool)) :=
-  let '(obs, cl, w) := w_workload (Z * Z) Z (Z * Z) zkey Z.ltb zenc zdec leftmost_min 2 true true demo_ops f in
+  let '(obs, cl, w) := w_workload (Z * Z) Z (Z * Z) zkey Z.ltb zenc zdec leftmost_min false 2 true true demo_ops f in
   (map (fun o => (o_out _ o, map fst (o_items _ o), Z.of_nat (o_files _ o), Z.of_nat (o_open _ o))) obs, cl,
    (Z.of_nat (length (files _ w)), Z.of_nat (length (fds _ w)), Z.of_nat (length (log _ w))), hit _ w).
 
@@ -109,7 +110,7 @@ Proof. vm_compute. reflexivity. Qed.
 (* the first descriptor a sorter gets is number 0 (a process without a stdin):
    it is registered as Some 0, and close() releases it like any other *)
 Definition one_spill :=
-  w_run (Z * Z) Z (Z * Z) zkey Z.ltb zenc zdec leftmost_min true (wnew Z (Z * Z) 1 true) [OpAdd _ (7, 0)] (world0 _ None).
+  w_run (Z * Z) Z (Z * Z) zkey Z.ltb zenc zdec leftmost_min false true (wnew Z (Z * Z) 1 true) [OpAdd _ (7, 0)] (world0 _ None).
 Example demo_descriptor_zero_registered :
   (fds _ (snd one_spill), wfds _ _ (snd (fst one_spill))) = ([0%nat], [Some 0%nat]).
 Proof. vm_compute. reflexivity. Qed.
@@ -130,37 +131,41 @@ Section C18_faults.
   Variable enc : A -> D.
   Variable dec : D -> res A.
   Variable pick_min : forall X : Type, (X -> X -> bool) -> list X -> option (X * list X).
+  Variable eof : bool.   (* a failing read raises EOFError (truncated spill file) instead of OSError *)
 
   (* (a) Sorter: in every state reachable by any history of add / iterate-k-
      then-abandon / close from a fresh sorter, under any fault schedule: the
      operation during which the scheduled call fails (the schedule is pending
      before it and consumed after it) raises OSError with the scheduled errno -
-     whether the operation is an add, an iteration or a close - with the one
-     exception the code documents: ENOENT from os.remove inside close(), after
+     whether the operation is an add, an iteration or a close; in the EOF
+     flavour of the schedule (a read of a truncated spill file raises
+     EOFError) the iteration raises that exception instead: it is never turned
+     into "end of file" - with the one exception the code documents: ENOENT from os.remove inside close(), after
      which close() returns normally. *)
   Theorem C18_fault_surfaces :
     forall (c : nat) (al : bool) (f : option (nat * bool)) (s : wsorter K D) (w : world D)
            (o : op A) out ys s' w' (eno : bool),
-      reachable A K D keyf lt enc dec pick_min c al f s w ->
-      w_step A K D keyf lt enc dec pick_min s o w = (out, ys, s', w') ->
+      reachable A K D keyf lt enc dec pick_min eof c al f s w ->
+      w_step A K D keyf lt enc dec pick_min eof s o w = (out, ys, s', w') ->
       fires D w w' eno ->
       out = ORaise (OSError eno) \/
+      (eof = true /\ (exists p, o = OpIter A p) /\ out = ORaise PlainException) \/
       (eno = true /\ o = OpClose A /\ hit D w' = Some COsRemove /\ out = OOk).
   Proof.
     intros c al f s w o out ys s' w' eno R.
-    exact (step_surfaces A K D keyf lt enc dec pick_min s o w out ys s' w' eno
-             (reachable_WI2 A K D keyf lt enc dec pick_min c al f s w R)).
+    exact (step_surfaces A K D keyf lt enc dec pick_min eof s o w out ys s' w' eno
+             (reachable_WI2 A K D keyf lt enc dec pick_min eof c al f s w R)).
   Qed.
 
   (* nothing but the injected fault makes close() fail: without a pending
      fault, close() of any reachable sorter returns normally *)
   Theorem C18_close_fails_only_by_fault :
     forall (c : nat) (al : bool) (f : option (nat * bool)) (s : wsorter K D) (w : world D) e s' w',
-      reachable A K D keyf lt enc dec pick_min c al f s w ->
+      reachable A K D keyf lt enc dec pick_min eof c al f s w ->
       fault D w = None -> w_close K D s w = (e, s', w') -> e = None.
   Proof.
     intros c al f s w e s' w' R.
-    exact (close_without_fault K D s w e s' w' (reachable_WI2 A K D keyf lt enc dec pick_min c al f s w R)).
+    exact (close_without_fault K D s w e s' w' (reachable_WI2 A K D keyf lt enc dec pick_min eof c al f s w R)).
   Qed.
 
   (* (d) close() until it returns normally: two calls suffice, for every
@@ -168,9 +173,9 @@ Section C18_faults.
      is left) *)
   Theorem C18_two_closes_suffice :
     forall (c : nat) (al stop : bool) (ops : list (op A)) (f : option (nat * bool)) obs cl w',
-      w_workload A K D keyf lt enc dec pick_min c al stop ops f = (obs, cl, w') ->
+      w_workload A K D keyf lt enc dec pick_min eof c al stop ops f = (obs, cl, w') ->
       (length cl <= 2)%nat.
-  Proof. exact (two_closes A K D keyf lt enc dec pick_min). Qed.
+  Proof. exact (two_closes A K D keyf lt enc dec pick_min eof). Qed.
 
   (* (a) MafWriter with a sorter: `writer += record` and writer.close() report
      the fault, in every state reachable by any sequence of writes and closes *)
@@ -182,13 +187,14 @@ Section C18_faults.
 
   Theorem C18_writer_close_fault_surfaces :
     forall (c : nat) (f : option (nat * bool)) (wr : wwriter A K D) (w : world D) o wr' w' (eno : bool),
-      wr_reachable A K D keyf lt enc dec pick_min c f wr w ->
-      wr_close A K D keyf lt dec pick_min wr w = (o, wr', w') -> fires D w w' eno ->
-      o = ORaise (OSError eno) \/ (eno = true /\ hit D w' = Some COsRemove /\ o = OOk).
+      wr_reachable A K D keyf lt enc dec pick_min eof c f wr w ->
+      wr_close A K D keyf lt dec pick_min eof wr w = (o, wr', w') -> fires D w w' eno ->
+      o = ORaise (OSError eno) \/ (eof = true /\ o = ORaise PlainException) \/
+      (eno = true /\ hit D w' = Some COsRemove /\ o = OOk).
   Proof.
     intros c f wr w o wr' w' eno R.
-    exact (wr_close_surfaces A K D keyf lt dec pick_min wr w o wr' w' eno
-             (wr_reachable_WI2 A K D keyf lt enc dec pick_min c f wr w R)).
+    exact (wr_close_surfaces A K D keyf lt dec pick_min eof wr w o wr' w' eno
+             (wr_reachable_WI2 A K D keyf lt enc dec pick_min eof c f wr w R)).
   Qed.
 End C18_faults.
 Print Assumptions C18_fault_surfaces.
@@ -204,6 +210,7 @@ Section C18_writer_data.
   Variable enc : A -> D.
   Variable dec : D -> res A.
   Variable pick_min : forall X : Type, (X -> X -> bool) -> list X -> option (X * list X).
+  Variable eof : bool.   (* a failing read raises EOFError (truncated spill file) instead of OSError *)
   (* the hypotheses of C07 *)
   Hypothesis lt_swo : swo K lt.
   Hypothesis pick_ok : pick_contract pick_min.
@@ -221,10 +228,10 @@ Section C18_writer_data.
   Theorem C18_writer_output_complete :
     forall (c : nat) (f : option (nat * bool)) (xs : list A) ao wr w wra wa wr' w',
       wr_adds A K D keyf lt enc pick_min (wr_new A K D c) xs (world0 D f) = (ao, wr, w) ->
-      closes A K D keyf lt dec pick_min wr w wra wa ->
-      wr_close A K D keyf lt dec pick_min wra wa = (OOk, wr', w') ->
+      closes A K D keyf lt dec pick_min eof wr w wra wa ->
+      wr_close A K D keyf lt dec pick_min eof wra wa = (OOk, wr', w') ->
       incl (map enc (oks A xs ao)) (map enc (wout A K D wr')).
-  Proof. exact (writer_complete A K D keyf lt enc dec pick_min lt_swo pick_ok codec_ok). Qed.
+  Proof. exact (writer_complete A K D keyf lt enc dec pick_min eof lt_swo pick_ok codec_ok). Qed.
 
   (* when every write and the first close() return normally the output is
      exactly the records written: a permutation of their renderings, each
@@ -233,10 +240,10 @@ Section C18_writer_data.
     forall (c : nat) (f : option (nat * bool)) (xs : list A) ao wr w wr' w',
       wr_adds A K D keyf lt enc pick_min (wr_new A K D c) xs (world0 D f) = (ao, wr, w) ->
       Forall (fun o => o = OOk) ao ->
-      wr_close A K D keyf lt dec pick_min wr w = (OOk, wr', w') ->
+      wr_close A K D keyf lt dec pick_min eof wr w = (OOk, wr', w') ->
       Permutation (map enc (wout A K D wr')) (map enc xs) /\
       Forall (fun y => dec (enc y) = Ok y) (wout A K D wr').
-  Proof. exact (writer_complete_first A K D keyf lt enc dec pick_min lt_swo pick_ok codec_ok). Qed.
+  Proof. exact (writer_complete_first A K D keyf lt enc dec pick_min eof lt_swo pick_ok codec_ok). Qed.
 End C18_writer_data.
 Print Assumptions C18_writer_output_complete.
 Print Assumptions C18_writer_output_exact_when_first_close_succeeds.
@@ -249,7 +256,7 @@ Print Assumptions C18_writer_output_exact_when_first_close_succeeds.
    the corpus case of harness/props/C18.py (writer, fault [39, 0]). *)
 Definition retry_recs : list (Z * Z) := [(3, 0); (1, 1); (2, 2); (5, 3); (4, 4)].
 Definition retry_run :=
-  wr_workload (Z * Z) Z (Z * Z) zkey Z.ltb zenc zdec leftmost_min 2 retry_recs (Some (39%nat, false)).
+  wr_workload (Z * Z) Z (Z * Z) zkey Z.ltb zenc zdec leftmost_min false 2 retry_recs (Some (39%nat, false)).
 Example retry_adds : fst (fst (fst retry_run)) = [OOk; OOk; OOk; OOk; OOk].
 Proof. vm_compute. reflexivity. Qed.
 Example retry_closes : snd (fst (fst retry_run)) = [ORaise (OSError false); OOk].
@@ -267,3 +274,15 @@ Proof.
   unfold retry_recs in P. simpl in P. discriminate.
 Qed.
 Print Assumptions C18_writer_retry_duplicates_refuted.
+
+(* the EOF flavour of the schedule: the 31st call (a read during the merge)
+   hits the end of a truncated spill file.  The iteration raises (PlainException
+   stands for EOFError), after returning the one record it had; it does not
+   take the damage for the end of the file; close() then cleans up. *)
+Definition demo_eof :=
+  let '(obs, cl, w) := w_workload (Z * Z) Z (Z * Z) zkey Z.ltb zenc zdec leftmost_min true 2 true true demo_ops (Some (30%nat, false)) in
+  (map (fun o => (o_out _ o, map fst (o_items _ o))) obs, cl, (Z.of_nat (length (files _ w)), Z.of_nat (length (fds _ w))), hit _ w).
+Example demo_truncated_spill_file_surfaces :
+  demo_eof = ([(OOk, []); (OOk, []); (OOk, []); (OOk, []); (OOk, []); (ORaise PlainException, [1])],
+              [None], (0, 0), Some CRead).
+Proof. vm_compute. reflexivity. Qed.
